@@ -83,9 +83,9 @@ def gen(rnd, big=False):
         if cm == 'mass-only-some':
             has_c = (not has_m) and rnd.random() < 0.5
         if has_c:
-            a['charge'] = rnd.choice([0, 0.0, 1.0, -1.0, 0.5, -0.25, 1])
+            a['charge'] = rnd.choice([0, 0.0, 1.0, -1.0, 0.5, -0.25, 1, 1 / 3, -1 / 6, 4e-05, -0.123456, 0.30000000000000004])
         if has_m:
-            a['mass'] = rnd.choice([72, 72.0, 36.0, 54.5, 0])
+            a['mass'] = rnd.choice([72, 72.0, 36.0, 54.5, 0, 1.00794, 14.00674, 36.46094, 1e-06])
         atoms.append((k, a))
     inter = []
     nint = 0 if rnd.random() < 0.08 else (rnd.randint(1, 60) if not big else 200)
